@@ -46,7 +46,7 @@ class C06(Prop):
         return d
 
     def streams(self, rng, tier):
-        n = 60 if tier == 'quick' else scale(6000)
+        n = 240 if tier == 'quick' else scale(6000)
         cases = [self._strip(G.gen_case(rng)) for _ in range(n)]
         # witnesses of recorded findings: ports `api`/`Api`
         c = G.gen_case(rng, want_mc=False)
@@ -70,11 +70,15 @@ class C06(Prop):
             w['witness'] = 'K-2'
             yield 'witness-K-2', [w]
         yield 'structural', cases
+        # the theorems are about the byte-exact generator model: its text is compared with the real files
+        yield 'text', [dict(c, op='build', expect='any') for c in cases]
 
     def impl(self, case):
         return G.build_impl(case)
 
     def project(self, case, out):
+        if case.get('op') == 'build':
+            return out
         return out if not (isinstance(out, dict) and 'ok' in out and 'files' in (out['ok'] if isinstance(out['ok'], dict) else {})) else 'files'
 
     def shape(self, case, impl_out):
